@@ -53,7 +53,25 @@ func ruleReadFull(c *Ctx, p *core.Program, rule string) {
 	for _, fn := range p.Funcs() {
 		for _, call := range core.Calls(fn) {
 			f := core.CalleeFunc(call)
-			if f == nil || !core.IsMethod(f, "bufio", "Reader", f.Name()) {
+			if f == nil {
+				continue
+			}
+			if cc := call.Common(); cc.IsInvoke() && pkgOf(fn) != nil {
+				// the same methods reached through an interface the source is asserted to (interface{ Peek(int) ([]byte, error) })
+				sig := cc.Method.Type().(*types.Signature)
+				peekLike := false
+				switch cc.Method.Name() {
+				case "Peek", "ReadSlice":
+					peekLike = sig.Params().Len() == 1 && sig.Results().Len() == 2 && sig.Results().At(0).Type().String() == "[]byte"
+				case "Buffered":
+					peekLike = sig.Params().Len() == 0 && sig.Results().Len() == 1 && sig.Results().At(0).Type().String() == "int"
+				}
+				if peekLike {
+					c.R.Bad(rule, core.CallKey(fn, call), cfg, p.Pos(call.Pos()), "library code calls "+cc.Method.Name()+" of a buffered source through an interface: it returns a window into the source's own buffer holding only the bytes that have arrived so far - the outcome depends on how the transport segments the stream, and the window is overwritten by the next refill")
+				}
+				continue
+			}
+			if !core.IsMethod(f, "bufio", "Reader", f.Name()) {
 				continue
 			}
 			switch f.Name() {
@@ -137,6 +155,7 @@ func runC08(c *Ctx) {
 		}
 		ruleReadFull(c, p, "C08.readfull")
 		ruleReaderSource(c, p, "C08.source")
+		ruleDeadlineDisarmed(c, p, "C08.disarm")
 	}
 	p := c.Prog(core.CfgDefault)
 	if p == nil {
@@ -356,4 +375,217 @@ func rulePacketRead(c *Ctx, p *core.Program, rule string) {
 			}
 		}
 	}
+}
+
+// ---- deadline arming is paired with disarming (shared by C08 and C10)
+func isDeadlineSetter(call ssa.CallInstruction) string {
+	cc := call.Common()
+	name := ""
+	if cc.IsInvoke() {
+		name = cc.Method.Name()
+	} else if f := core.CalleeFunc(call); f != nil {
+		name = f.Name()
+	}
+	switch name {
+	case "SetReadDeadline", "SetWriteDeadline", "SetDeadline":
+		return name
+	}
+	return ""
+}
+
+func isZeroStruct(v ssa.Value) bool {
+	switch x := v.(type) {
+	case *ssa.Const:
+		return x.Value == nil
+	case *ssa.UnOp:
+		if al, ok := x.X.(*ssa.Alloc); ok {
+			for _, r := range *al.Referrers() {
+				if s, ok := r.(*ssa.Store); ok && s.Addr == al {
+					return false
+				}
+			}
+			return true
+		}
+	}
+	return false
+}
+
+func ruleDeadlineDisarmed(c *Ctx, p *core.Program, rule string) {
+	c.R.Rule(rule, "a deadline armed on the connection never outlives the operation that armed it: in client code, every SetReadDeadline/SetWriteDeadline/SetDeadline call with a non-zero time is followed, on every path to an exit on which the call itself succeeded, by a disarming call of the same kind with the zero time (directly, through a helper, or in a deferred function) - a deadline left armed applies to every later read on the connection, which then fails at that instant regardless of ReadTimeout and of the later call's context. An unexported helper that returns with the deadline armed is an arming wrapper: the obligation moves to its call sites, where the paths on which its error is non-nil or its boolean 'armed' result is false are exempt (the result is verified to be true exactly on the arming paths)")
+	cfg := p.Cfg.Name
+	n := 0
+	inScope := func(fn *ssa.Function) bool {
+		pk := pkgOf(fn)
+		return pk != nil && (pk.Path() == core.PkgCh || pk.Path() == core.PkgPool) && !isServerSide(fn) && fn.Blocks != nil
+	}
+	disarmCallOf := func(kind string) func(x ssa.CallInstruction) bool {
+		return func(x ssa.CallInstruction) bool {
+			k := isDeadlineSetter(x)
+			a := x.Common().Args
+			return (k == kind || k == "SetDeadline") && len(a) > 0 && isZeroStruct(a[len(a)-1])
+		}
+	}
+	isDisarmFor := func(kind string) func(in ssa.Instruction) bool {
+		disarmCall := disarmCallOf(kind)
+		always := func(df *ssa.Function) bool {
+			if df == nil || df.Blocks == nil {
+				return false
+			}
+			return len(core.ReachAvoiding(core.Entry(df), core.IsExit, func(y ssa.Instruction) bool {
+				cl, ok := y.(ssa.CallInstruction)
+				return ok && disarmCall(cl)
+			}, nil)) == 0
+		}
+		return func(in ssa.Instruction) bool {
+			switch x := in.(type) {
+			case *ssa.Defer:
+				if disarmCall(x) {
+					return true
+				}
+				var df *ssa.Function
+				if mc, ok := x.Call.Value.(*ssa.MakeClosure); ok {
+					df, _ = mc.Fn.(*ssa.Function)
+				} else {
+					df = core.StaticFn(x)
+				}
+				return always(df)
+			case *ssa.Call:
+				if disarmCall(x) {
+					return true
+				}
+				if sf := core.StaticFn(x); sf != nil && inScope(sf) {
+					return always(sf)
+				}
+			}
+			return false
+		}
+	}
+	errFilter := func(fn *ssa.Function, call ssa.CallInstruction) core.EdgeFilter {
+		ev := core.ErrValue(call)
+		if ev == nil {
+			return nil
+		}
+		al := core.Aliases(fn, ev)
+		return func(b *ssa.BasicBlock, i int) bool {
+			if ifi, ok := b.Instrs[len(b.Instrs)-1].(*ssa.If); ok {
+				if ns, ok := core.NilTest(ifi, al); ok && ns != i {
+					return false
+				}
+			}
+			return true
+		}
+	}
+	callers := map[*ssa.Function][]ssa.CallInstruction{}
+	for _, fn := range p.Funcs() {
+		if !inScope(fn) {
+			continue
+		}
+		for _, call := range core.Calls(fn) {
+			if sf := core.StaticFn(call); sf != nil && inScope(sf) {
+				if _, isDefer := call.(*ssa.Defer); !isDefer {
+					callers[sf] = append(callers[sf], call)
+				}
+			}
+		}
+	}
+	for _, fn := range p.Funcs() {
+		if !inScope(fn) {
+			continue
+		}
+		for _, call := range core.Calls(fn) {
+			kind := isDeadlineSetter(call)
+			args := call.Common().Args
+			if kind == "" || len(args) == 0 || isZeroStruct(args[len(args)-1]) {
+				continue
+			}
+			if _, isDefer := call.(*ssa.Defer); isDefer {
+				continue
+			}
+			isDisarm := isDisarmFor(kind)
+			key := core.CallKey(fn, call) + "/disarmed"
+			w := core.ReachAvoiding(core.PointOf(call.(ssa.Instruction)), core.IsExit, isDisarm, errFilter(fn, call))
+			if len(w) == 0 {
+				n++
+				c.R.Ok(rule, key, cfg, p.Pos(call.Pos()), kind+" is reset to the zero time on every path after it succeeded")
+				continue
+			}
+			// an arming wrapper? unexported, named, called statically from client code
+			sites := callers[fn]
+			if fn.Parent() != nil || fn.Object() == nil || fn.Object().Exported() || len(sites) == 0 {
+				n++
+				c.R.Bad(rule, key, cfg, p.Pos(call.Pos()), kind+" arms a deadline that is still set when the function returns: every later read on the connection fails at that instant, whatever ReadTimeout and the later call's context say")
+				continue
+			}
+			// the boolean result that tells the caller whether the deadline is armed
+			bi := -1
+			res := fn.Signature.Results()
+			for i := 0; i < res.Len(); i++ {
+				if b, ok := res.At(i).Type().Underlying().(*types.Basic); ok && b.Kind() == types.Bool {
+					bi = i
+				}
+			}
+			armedRet := map[ssa.Instruction]bool{}
+			for _, wi := range w {
+				armedRet[wi.At] = true
+			}
+			flagOK := bi >= 0
+			if bi >= 0 {
+				for _, b := range fn.Blocks {
+					ret, ok := b.Instrs[len(b.Instrs)-1].(*ssa.Return)
+					if !ok || len(ret.Results) <= bi {
+						continue
+					}
+					k, isConst := ret.Results[bi].(*ssa.Const)
+					if !isConst || k.Value == nil || (k.Value.String() == "true") != armedRet[ret] {
+						flagOK = false
+					}
+				}
+			}
+			for _, cs := range sites {
+				g := cs.Parent()
+				n++
+				skey := core.CallKey(g, cs) + "/disarmed"
+				filters := []core.EdgeFilter{}
+				if f := errFilter(g, cs); f != nil {
+					filters = append(filters, f)
+				}
+				if flagOK {
+					var flag ssa.Value
+					if v := cs.Value(); v != nil {
+						for _, r := range *v.Referrers() {
+							if e, ok := r.(*ssa.Extract); ok && e.Index == bi {
+								flag = e
+							}
+						}
+						if res.Len() == 1 {
+							flag = v
+						}
+					}
+					if flag != nil {
+						notArmed := core.CondEdges(g, false, func(cond ssa.Value) (bool, bool) {
+							x, pol := core.StripNot(cond)
+							return pol, x == flag
+						})
+						filters = append(filters, core.WithoutEdges(notArmed))
+					}
+				}
+				filter := func(b *ssa.BasicBlock, i int) bool {
+					for _, f := range filters {
+						if !f(b, i) {
+							return false
+						}
+					}
+					return true
+				}
+				ww := core.ReachAvoiding(core.PointOf(cs.(ssa.Instruction)), core.IsExit, isDisarm, filter)
+				if len(ww) == 0 {
+					c.R.Ok(rule, skey, cfg, p.Pos(cs.Pos()), kind+" armed by "+fn.Name()+" is reset to the zero time on every path on which it reports having armed it")
+				} else {
+					c.R.Bad(rule, skey, cfg, p.Pos(cs.Pos()), kind+" armed through "+fn.Name()+" is still set when the function returns: every later read or write on the connection fails at that instant", p.TrailString(ww[0])...)
+				}
+			}
+		}
+	}
+	c.R.Count("deadline arming obligations["+cfg+"]", n)
+	c.R.Floor(rule, cfg, n, 3)
 }
